@@ -75,6 +75,7 @@ package keeper
 //@ callsite SetClientState [installs-proposed-client] chainName == dollar_chainName && dollar_clientState == clientState
 //@ callsite SetClientConsensusState [installs-proposed-consensus] dollar_chainName == chainName && height == latestHeightOf(clientState) && dollar_consensusState == consensusState
 //@ ensures [errors-propagate] ncalls("Initialize") == 1 && (err == nil ==> callsok("Initialize"))
+//@ callsite SetClientConsensusState [never-for-a-tss-client] consTypeOf(dollar_consensusState) != exported.TSS
 //@ ensures [consensus-stored-unless-tss] err == nil && consTypeOf(consensusState) != exported.TSS ==> ncalls("SetClientConsensusState") == 1
 //@ ensures [packet-state-kept] packetStateKept(old(xibc(ctx)), xibc(ctx))
 
@@ -86,7 +87,10 @@ package keeper
 //@ callsite UpgradeState [upgraded-as-new] recv == newClientState && consState == newConsensusState && store == k.ClientStore(ctx, chainName)
 //@ callsite SetClientState [installs-proposed-client] dollar_chainName == chainName && dollar_clientState == newClientState && ncalls("UpgradeState") == 1 && callsok("UpgradeState")
 //@ callsite SetClientConsensusState [installs-proposed-consensus] dollar_chainName == chainName && height == latestHeightOf(newClientState) && consensusState == newConsensusState
-//@ ensures [installed] err == nil ==> ncalls("SetClientState") == 1 && ncalls("SetClientConsensusState") == 1
+// (a TSS client keeps no consensus state: its height is always 0-0, which the module's genesis validation rejects -
+// an export after such an upgrade or toggle would not pass validation, C13)
+//@ callsite SetClientConsensusState [never-for-a-tss-client] consTypeOf(consensusState) != exported.TSS
+//@ ensures [installed] err == nil ==> ncalls("SetClientState") == 1 && (consTypeOf(newConsensusState) != exported.TSS ==> ncalls("SetClientConsensusState") == 1)
 //@ ensures [reject-clean] err != nil && ncalls("UpgradeState") == 0 ==> xibc(ctx) == old(xibc(ctx))
 //@ ensures [packet-state-kept] packetStateKept(old(xibc(ctx)), xibc(ctx))
 
@@ -111,7 +115,8 @@ package keeper
 //@ callsite Initialize [initialised-as-new] recv == newClientState && consState == newConsensusState && store == k.ClientStore(ctx, chainName)
 //@ callsite SetClientState [installs-proposed-client] dollar_chainName == chainName && dollar_clientState == newClientState
 //@ callsite SetClientConsensusState [installs-proposed-consensus] dollar_chainName == chainName && height == latestHeightOf(newClientState) && consensusState == newConsensusState
-//@ ensures [installed] err == nil ==> ncalls("SetClientState") == 1 && ncalls("SetClientConsensusState") == 1 && ncalls("Initialize") == 1 && callsok("Initialize")
+//@ callsite SetClientConsensusState [never-for-a-tss-client] consTypeOf(consensusState) != exported.TSS
+//@ ensures [installed] err == nil ==> ncalls("SetClientState") == 1 && (consTypeOf(newConsensusState) != exported.TSS ==> ncalls("SetClientConsensusState") == 1) && ncalls("Initialize") == 1 && callsok("Initialize")
 //@ ensures [reject-clean] err != nil && ncalls("SetClientState") == 0 ==> xibc(ctx) == old(xibc(ctx))
 //@ ensures [packet-state-kept] packetStateKept(old(xibc(ctx)), xibc(ctx))
 
